@@ -779,6 +779,70 @@ fn det(tier: &str, seed: u64, outdir: &str) {
         }
         *st.by_gen.entry("schedules".into()).or_default() += 1;
     }
+    // (6) wear: one thread formats the same small document a great many times — one document per
+    // (kind of trivia × a few constructs) of the template universe, so that every special path of
+    // the printer (directives, comment styles, blank-line handling, every construct) is taken
+    // hundreds of times in a row — and after each of them a set of probe documents must still give
+    // the results of a fresh thread.  State that accumulates per call *on some path* (a counter
+    // that is not restored on an early return, a cache that fills up) shows here.
+    {
+        let reps = if tier == "thorough" { 5000 } else { 1100 };
+        let per_kind = if tier == "thorough" { 12 } else { 5 };
+        let mut rw = Rng::new(mix(seed, 0x3EA2));
+        let exh_u = crate::universe_size("exh", &fx);
+        let mut have = vec![0usize; TRIVIA.len()];
+        let mut wear: Vec<(String, Cfg)> = vec![];
+        let mut tries = 0;
+        while have.iter().any(|&h| h < per_kind) && tries < 200_000 {
+            tries += 1;
+            let (src, cfg, d) = exh_case(rw.next() % exh_u.max(1));
+            let tr = d.split(' ').find_map(|w| w.strip_prefix("trivia").and_then(|x| x.parse::<usize>().ok())).unwrap_or(0);
+            if tr < have.len() && have[tr] < per_kind && !obs::parse(&src).root().erroneous() {
+                have[tr] += 1;
+                wear.push((src, cfg));
+            }
+        }
+        // the fixtures that use the escape hatch, and a few of the sampled documents
+        for (name, src) in fx.items.iter() {
+            if name.contains("off") && src.len() < 3000 && !obs::parse(src).root().erroneous() {
+                wear.push((src.clone(), Cfg::default()));
+            }
+        }
+        for i in (0..docs.len()).step_by((docs.len() / 10).max(1)) {
+            if docs[i].0.len() < 3000 {
+                wear.push(docs[i].clone());
+            }
+        }
+        // probes: documents whose result differs from their source (so that "left as it is" shows)
+        let probes: Vec<usize> = (0..docs.len()).filter(|&i| matches!(&base[i], Ok(o) if *o != docs[i].0) && docs[i].0.len() < 5000).take(16).collect();
+        let (docs2, base2, wear2, probes2) = (docs.clone(), base.clone(), wear.clone(), probes.clone());
+        let res: Option<(usize, usize)> = std::thread::Builder::new()
+            .stack_size(256 << 20)
+            .spawn(move || {
+                for (wi, (s, c)) in wear2.iter().enumerate() {
+                    for _ in 0..reps {
+                        let _ = obs::format(s, *c);
+                    }
+                    for &i in &probes2 {
+                        if obs::format(&docs2[i].0, docs2[i].1) != base2[i] {
+                            return Some((wi, i));
+                        }
+                    }
+                }
+                None
+            })
+            .unwrap()
+            .join()
+            .unwrap_or(Some((0, 0)));
+        st.evaluated += (wear.len() * (reps + probes.len())) as u64;
+        st.by_gen.insert("wear-documents".into(), wear.len() as u64);
+        if let Some((wi, i)) = res {
+            st.failures += 1;
+            let (ws, _) = &wear[wi.min(wear.len().saturating_sub(1))];
+            fails.push(fail_json("C17", "det", i as u64, &docs[i].0, docs[i].1, "wear", &format!("result differs from the result on a fresh thread after this thread formatted the following document {} times in a row: {:?}", reps, ws), ""));
+        }
+        *st.by_gen.entry("schedules".into()).or_default() += 1;
+    }
     finish(outdir, vec![(st, fails)]);
 }
 
